@@ -56,9 +56,11 @@ _UNIT_ALG = [Q + "Unit.__mul__", Q + "Unit.__rmul__", Q + "Unit.__truediv__",
 _QTY_ALG = [Q + "Quantity.__mul__", Q + "Quantity.__rmul__",
             Q + "Quantity.__truediv__", Q + "Quantity.__rtruediv__",
             Q + "Quantity.__pow__"]
-PROPS["C02"] = dict(functions=_UNIT_ALG + _QTY_ALG + [Q + "Quantity.__new__"],
+PROPS["C02"] = dict(functions=_UNIT_ALG + _QTY_ALG + [Q + "Quantity.__new__",
+                                                       Q + "Unit.__hash__"],
                     standins=["C02"], frame=["_op_cache"])
-PROPS["C17"] = dict(functions=_UNIT_ALG + _QTY_ALG, standins=["C17"],
+PROPS["C17"] = dict(functions=_UNIT_ALG + _QTY_ALG + [Q + "Unit.__hash__"],
+                    standins=["C17"],
                     frame=["_op_cache", "_TERM_UNIT_MAP.register_item"])
 PROPS["C14"] = dict(
     functions=[CV + "TableConverter._get_factor", CV + "Converter.__call__",
